@@ -94,7 +94,8 @@ Definition SIG_DESCRIPTORS := 10%N.
 Definition SIG_DEADLINES := 11%N.
 Definition SIG_FTP_DATA_CONN := 12%N.         (* ftp: accepted data connection forgotten *)
 Definition SIG_FTP_DIR_HANDLE := 13%N.        (* ftp: ListDir leaves the directory open *)
-Definition SIG_MEMCACHED_STORE_SPIN := 14%N.  (* memcached: io.ReadFull for a data block the datagram does not hold *)
+Definition SIG_MEMCACHED_STORE_SPIN := 14%N.
+Definition SIG_FTP_PANIC_DATA_CONN := 17%N.   (* ftp: a session that ends in a recovered panic keeps its accepted data connection *)  (* memcached: io.ReadFull for a data block the datagram does not hold *)
 
 Definition is_svc (k : case) (s : svc) : bool :=
   match sc_svc (k_scn k), s with
@@ -127,7 +128,9 @@ Definition case_sigs (k : case) : list N :=
          else [if is_svc k Ftp then SIG_FTP_GOROUTINES else if is_svc k Smtp then SIG_SMTP_GOROUTINE else SIG_GOROUTINES]) ++
         (if l =? 0 then [] else [if is_svc k Ftp then SIG_FTP_LISTENERS else SIG_LISTENERS]) ++
         (if f - l =? 0 then []
-         else [if is_svc k Ftp then (if dialled k then SIG_FTP_DATA_CONN else SIG_FTP_DIR_HANDLE) else SIG_DESCRIPTORS])
+         else [if is_svc k Ftp then (if (o_out o =? 1)%N && dialled k then SIG_FTP_PANIC_DATA_CONN
+                                     else if dialled k then SIG_FTP_DATA_CONN else SIG_FTP_DIR_HANDLE)
+               else SIG_DESCRIPTORS])
   end.
 
 Definition violations (cs : list case) : list (N * N) :=
